@@ -227,7 +227,13 @@ impl<R: Read> LineProcessor<R> {
     pub fn count_lines(&mut self) -> Result<usize> {
         let mut count = 0;
         while self.read_next_line()? {
-            if !self.config.skip_empty_lines || !self.line_buffer.trim().is_empty() {
+            // Same emptiness rule as process_lines()
+            let line = if self.config.trim_whitespace {
+                self.line_buffer.trim()
+            } else {
+                &self.line_buffer
+            };
+            if !self.config.skip_empty_lines || !line.is_empty() {
                 count += 1;
             }
         }
